@@ -367,9 +367,13 @@ def run_impl(prop, cases, jobs):
 # ------------------------------------------------------------------------------------------
 
 def load_findings(prop_id):
-  path = os.path.join(VERIF, 'findings', 'known_findings.json')
-  with open(path) as f:
-    entries = json.load(f)['findings']
+  """findings/known_findings.json plus (while a property is under construction) findings/<id>.json."""
+  entries = []
+  for name in ('known_findings.json', prop_id + '.json'):
+    path = os.path.join(VERIF, 'findings', name)
+    if os.path.exists(path):
+      with open(path) as f:
+        entries += json.load(f)['findings']
   return [e for e in entries if e['property'] == prop_id]
 
 
@@ -500,6 +504,12 @@ def run_check(prop, tier, seed):
       # and kernel-checked in this run; count those, not the broken ones.
       discharged = max(0, len(theorems) - len(broken_names))
       ctx.coverage['broken_declarations'] = sorted(broken_names)
+    if ok and tier == 'thorough':
+      # independent re-check of the compiled property modules
+      rc, out, err = _run(['lake', 'env', 'leanchecker'] + list(prop.props_modules), cwd=LEAN_DIR, timeout=3000)
+      ctx.coverage['leanchecker'] = 'exit %d' % rc
+      if rc != 0:
+        ctx.broken.append({'kind': 'audit', 'name': 'leanchecker', 'detail': (out + err)[-600:]})
     hits, modules_seen = forbidden_tokens(prop.props_modules)
     for h in hits:
       ctx.broken.append({'kind': 'audit', 'name': 'forbidden-token', 'detail': h})
